@@ -310,3 +310,77 @@ pub fn fmtrt_main(args: &[String]) {
         }
     }
 }
+
+/// `fmtcli <scratch-dir>`: the `incan fmt` command function on real files (replay of X-format_files / X-check_formatted):
+/// prints `OK <scenario>` or `BROKEN <scenario> <why>`.
+pub fn fmtcli_main(args: &[String]) {
+    use incan::cli::commands::format_files;
+    let dir = std::path::PathBuf::from(args.first().cloned().unwrap_or_else(|| "/verif/work/fmtcli".to_string())).join(format!("run-{}", std::process::id()));
+    let _ = std::fs::remove_dir_all(&dir);
+    std::fs::create_dir_all(&dir).expect("scratch dir");
+    let unformatted = "def  f( a:int )->int:\n  return   a+1\n";
+    let formatted = incan::format_source(unformatted).expect("formats");
+    let report = |name: &str, problems: Vec<String>| {
+        if problems.is_empty() {
+            println!("OK {name}");
+        } else {
+            println!("BROKEN {name} {}", problems.join("; "));
+        }
+    };
+    for (name, check, diff) in [("check", true, false), ("diff", false, true), ("check+diff", true, true)] {
+        let p = dir.join(format!("{}.incn", name.replace('+', "_")));
+        std::fs::write(&p, unformatted).unwrap();
+        let r = format_files(p.to_str().unwrap(), check, diff);
+        let mut problems = Vec::new();
+        if std::fs::read_to_string(&p).unwrap() != unformatted {
+            problems.push("the file was modified".to_string());
+        }
+        if r.is_ok() {
+            problems.push("exit status is success although the file needs formatting".to_string());
+        }
+        report(&format!("{name}_unformatted"), problems);
+        std::fs::write(&p, &formatted).unwrap();
+        let r = format_files(p.to_str().unwrap(), check, diff);
+        let mut problems = Vec::new();
+        if std::fs::read_to_string(&p).unwrap() != formatted {
+            problems.push("the formatted file was modified".to_string());
+        }
+        if r.is_err() {
+            problems.push("exit status is failure right after formatting".to_string());
+        }
+        report(&format!("{name}_formatted"), problems);
+    }
+    // rewrite mode, two files: only the changed one is rewritten, each with its own text
+    let (a, b) = (dir.join("two").join("a.incn"), dir.join("two").join("b.incn"));
+    std::fs::create_dir_all(dir.join("two")).unwrap();
+    let other = "def g()->None:\n        pass\n";
+    std::fs::write(&a, unformatted).unwrap();
+    std::fs::write(&b, other).unwrap();
+    let r = format_files(dir.join("two").to_str().unwrap(), false, false);
+    let mut problems = Vec::new();
+    if r.is_err() {
+        problems.push("rewrite failed".to_string());
+    }
+    if std::fs::read_to_string(&a).unwrap() != formatted {
+        problems.push("a.incn does not hold its own formatted text".to_string());
+    }
+    if std::fs::read_to_string(&b).unwrap() != incan::format_source(other).unwrap() {
+        problems.push("b.incn does not hold its own formatted text".to_string());
+    }
+    if format_files(dir.join("two").to_str().unwrap(), true, false).is_err() {
+        problems.push("--check fails right after `incan fmt` rewrote the files".to_string());
+    }
+    report("rewrite_two_files", problems);
+    let mut problems = Vec::new();
+    if incan::check_formatted(&formatted).ok() != Some(true) {
+        problems.push("check_formatted(fmt(x)) is not true".to_string());
+    }
+    if incan::check_formatted(unformatted).ok() != Some(false) {
+        problems.push("check_formatted(unformatted) is not false".to_string());
+    }
+    if incan::check_formatted("def f(:\n").is_ok() {
+        problems.push("check_formatted swallows a syntax error".to_string());
+    }
+    report("check_formatted", problems);
+    let _ = std::fs::remove_dir_all(&dir);
+}
